@@ -298,3 +298,16 @@ Definition c18_obs_eqb (a b : c18_obs) : bool :=
   end.
 
 Definition c18_check (x : c18_case * c18_obs) : bool := c18_obs_eqb (c18_model (fst x)) (snd x).
+
+(** printable form of the model's observation (replay files) *)
+Inductive mshow := SUnset | SFlex | SNone | SNomask | SBits (sh : shape) (bits : list bool).
+Definition show_mspec (m : mspec) : mshow :=
+  match m with
+  | MUnset => SUnset | MFlex => SFlex | MNone => SNone | MNomask => SNomask
+  | MBits a => SBits (ashape a) (ravel OC a)
+  end.
+Definition c18_model_show (c : c18_case) : c18_obs + option mshow :=
+  match c18_model c with
+  | OExchange r => inr (option_map show_mspec r)
+  | x => inl x
+  end.
